@@ -2,6 +2,7 @@ package main
 
 import (
 	"context"
+	"encoding/json"
 	"errors"
 	"fmt"
 	"io"
@@ -372,7 +373,104 @@ func genGraph(r *lib.Rng, tier string) *Case {
 		c.Opts2 = genOpts()
 		c.HasOpts2 = true
 	}
+	// a fault at a particular point of the sequence: a third of the sequences have a resuming call
+	// that fails before anything is restored (the store fails; the graph has been rebuilt with other keys)
+	if c.Store && totalIntr(c) > 0 && r.Chance(1, 3) {
+		c.ResumeFault = []string{"stale", "stale", "stale", "store"}[r.Intn(4)]
+		c.FaultAt = 1
+		if totalIntr(c) > 1 && r.Chance(1, 3) {
+			c.FaultAt = 2
+		}
+	}
 	return c
+}
+
+// faultStrikes: the k-th call of the sequence fails in the prologue of the run
+func (c *Case) faultStrikes(k int) bool { return c.ResumeFault != "" && k > 0 && k == c.FaultAt }
+
+// expectRun: the units of the k-th run of the sequence and its outcome. A call that fails in its prologue
+// executes the graph unit alone: its start, then its error (the deferred bookkeeping of runner.run).
+func (c *Case) expectRun(x *expectation, k int, opts []GOpt) int {
+	if c.faultStrikes(k) {
+		x.execs[0]++
+		x.failed[0], x.errKind[0], x.badOpts[0] = true, outFail, true
+		return outFail
+	}
+	return x.graph(0, c.Stages, opts, nil)
+}
+
+// runOutcome: the outcome of the k-th run of the sequence
+func (c *Case) runOutcome(ps *planSt, k int, opts []GOpt) int {
+	if c.faultStrikes(k) {
+		return outFail
+	}
+	return ps.graphOutcome(c.Stages, opts)
+}
+
+// staleBuild: the case as a newer build of the graph in which one node got another key: a node the
+// checkpoint holds a pending task for (ps: where the sequence stands; the nodes still to be executed of
+// the first top-level stage that has not completed), if possible one that no call option of the
+// resuming call designates (opts), so that the call gets as far as restoring the tasks; the interrupt
+// points follow the renaming
+func (c *Case) staleBuild(ps *planSt, opts []GOpt) *Case {
+	raw, err := json.Marshal(c)
+	if err != nil {
+		panic("harness: " + err.Error())
+	}
+	n := &Case{}
+	if err := json.Unmarshal(raw, n); err != nil {
+		panic("harness: " + err.Error())
+	}
+	var pending, free []*GNode
+	for _, st := range n.Stages {
+		for _, m := range st {
+			if m.Kind != "stop" && !ps.done[m.UID] {
+				pending = append(pending, m)
+			}
+		}
+		if len(pending) > 0 {
+			break
+		}
+	}
+	for _, m := range pending {
+		named := false
+		for _, o := range opts {
+			for _, p := range o.Paths {
+				if len(p) > 0 && p[0] == m.Key {
+					named = true
+				}
+			}
+		}
+		if !named {
+			free = append(free, m)
+		}
+	}
+	if len(free) > 0 {
+		pending = free
+	}
+	ren := map[int]int{}
+	if len(pending) > 0 {
+		m := pending[int((c.Seed>>16)%uint64(len(pending)))]
+		ren[m.Key] = m.Key + 1000
+		m.Key += 1000
+	}
+	for _, st := range n.Stages {
+		for _, m := range st {
+			if m.Kind == "stop" {
+				for i, k := range m.Before {
+					if v, ok := ren[k]; ok {
+						m.Before[i] = v
+					}
+				}
+				for i, k := range m.After {
+					if v, ok := ren[k]; ok {
+						m.After[i] = v
+					}
+				}
+			}
+		}
+	}
+	return n
 }
 
 // callerSlice is a handler slice the harness (as the caller) handed to eino, with spare capacity.
@@ -489,15 +587,27 @@ func (rr *runRec) settle(x *expectation) {
 
 // memStore is a compose.CheckPointStore.
 type memStore struct {
-	mu sync.Mutex
-	m  map[string][]byte
+	mu      sync.Mutex
+	m       map[string][]byte
+	failGet bool // the store is out of order: Get fails
 }
+
+var errStore = errors.New("the checkpoint store is out of order")
 
 func (s *memStore) Get(_ context.Context, id string) ([]byte, bool, error) {
 	s.mu.Lock()
 	defer s.mu.Unlock()
+	if s.failGet {
+		return nil, false, errStore
+	}
 	v, ok := s.m[id]
 	return v, ok, nil
+}
+
+func (s *memStore) setFail(b bool) {
+	s.mu.Lock()
+	s.failGet = b
+	s.mu.Unlock()
 }
 
 func (s *memStore) Set(_ context.Context, id string, cp []byte) error {
@@ -634,7 +744,8 @@ func (rr *runRec) lambda(n *GNode) *compose.Lambda {
 			return chunked(out, n.Chunks), nil
 		}
 	}
-	var lo []compose.LambdaOpt
+	// every lambda has an implementation type of its own: RunInfo.Type is part of the unit's run info
+	lo := []compose.LambdaOpt{compose.WithLambdaType(lambdaType(n))}
 	if n.SelfCB {
 		lo = append(lo, compose.WithLambdaCallbackEnable(true))
 	}
@@ -644,6 +755,17 @@ func (rr *runRec) lambda(n *GNode) *compose.Lambda {
 	}
 	return l
 }
+
+// lambdaType: the implementation type a lambda is given (the same *Lambda under two keys has one)
+func lambdaType(n *GNode) string {
+	if n.Shared > 0 {
+		return fmt.Sprintf("TS%d", n.Shared)
+	}
+	return fmt.Sprintf("T%d", n.UID)
+}
+
+// toolType: the implementation type of the tool behind a tool call (components.Typer)
+func toolType(c *GCall) string { return fmt.Sprintf("X%d", c.UID) }
 
 func nodeKey(k int) string    { return fmt.Sprintf("k%d", k) }
 func unitName(uid int) string { return fmt.Sprintf("u%d", uid) }
@@ -865,6 +987,23 @@ func inputChunks(k int) []vmap {
 }
 
 // call runs the compiled graph in one paradigm and canonicalises the outcome.
+// lastCallErr: the message of the error the last call returned (for the distribution tags only)
+var lastCallErr string
+
+// faultSite: which statement of the prologue of runner.run rejected the call
+func faultSite(msg string) string {
+	for _, s := range [][2]string{{"restore tasks fail", "restore-tasks"}, {"restore checkpoint fail", "restore-checkpoint"},
+		{"load checkpoint from store fail", "load-checkpoint"}, {"extract option fail", "extract-option"}, {"load channel", "load-channels"}} {
+		if strings.Contains(msg, s[0]) {
+			return s[1]
+		}
+	}
+	if msg == "" {
+		return "no-error"
+	}
+	return "other"
+}
+
 func call(r compose.Runnable[vmap, vmap], paradigm string, inChunks int, opts ...compose.Option) string {
 	ctx := context.Background()
 	var out vmap
@@ -887,7 +1026,9 @@ func call(r compose.Runnable[vmap, vmap], paradigm string, inChunks int, opts ..
 			out, err = drain(sr)
 		}
 	}
+	lastCallErr = ""
 	if err != nil {
+		lastCallErr = err.Error()
 		if os.Getenv("C10_DEBUG") != "" {
 			fmt.Fprintln(os.Stderr, "C10_DEBUG error:", err)
 		}
@@ -1363,6 +1504,7 @@ func runGraph(c *Case) lib.Result {
 		maxRuns = totalIntr(c) + 2
 	}
 	var runs []oneRun
+	faultWhere := "" // where in the prologue the failing call of the sequence failed (distribution only)
 	var baseline []string
 	var callerSlices []callerSlice
 	class, detail := watchdog(60*time.Second, func() {
@@ -1386,16 +1528,40 @@ func runGraph(c *Case) lib.Result {
 				_ = compose.VerifC03Events()
 			}
 		}
-		mkOpts := func() []compose.GraphCompileOption {
+		mkOpts := func(store *memStore, stages [][]*GNode) []compose.GraphCompileOption {
 			copts := []compose.GraphCompileOption{compose.WithGraphName(unitName(0))}
 			if c.Dag && !c.Eager {
 				copts = append(copts, compose.WithNodeTriggerMode(compose.AllPredecessor))
 			}
 			if c.Store {
-				copts = append(copts, compose.WithCheckPointStore(&memStore{m: map[string][]byte{}}))
+				copts = append(copts, compose.WithCheckPointStore(store))
 			}
-			copts = append(copts, intrOpts(c.Stages)...)
+			copts = append(copts, intrOpts(stages)...)
 			return copts
+		}
+		// the k-th call of a sequence: on the compiled graph, or - a call that fails in its prologue - with the
+		// store out of order resp. on a newer build of the graph (same store) whose pending nodes have other keys
+		callRun := func(rec *runRec, run compose.Runnable[vmap, vmap], store *memStore, ps *planSt, k int, gopts []GOpt, opts []compose.Option) string {
+			stages := c.Stages
+			if c.faultStrikes(k) {
+				switch c.ResumeFault {
+				case "store":
+					store.setFail(true)
+					defer store.setFail(false)
+				case "stale":
+					nc := c.staleBuild(ps, gopts)
+					g, err := rec.buildTop(nc)
+					if err != nil {
+						panic("harness: newer build of the graph does not build: " + err.Error())
+					}
+					run, err = g.Compile(context.Background(), mkOpts(store, nc.Stages)...)
+					if err != nil {
+						panic("harness: newer build of the graph does not compile: " + err.Error())
+					}
+					stages = nc.Stages
+				}
+			}
+			return call(run, c.Paradigm, c.InChunks, append(opts, rec.toolListOpts(stages, nil)...)...)
 		}
 		// baseline: the same graph, the same sequence of runs, without any handler
 		callbacks.InitCallbackHandlers(nil)
@@ -1404,7 +1570,8 @@ func runGraph(c *Case) lib.Result {
 		if err != nil {
 			panic("harness: graph does not build: " + err.Error())
 		}
-		run0, err := g0.Compile(context.Background(), mkOpts()...)
+		store0 := &memStore{m: map[string][]byte{}}
+		run0, err := g0.Compile(context.Background(), mkOpts(store0, c.Stages)...)
 		if err != nil {
 			panic("harness: graph does not compile: " + err.Error())
 		}
@@ -1415,12 +1582,12 @@ func runGraph(c *Case) lib.Result {
 		ps0 := newPlan(c)
 		for k := 0; k < maxRuns; k++ {
 			r0.nextRun()
-			r := call(run0, c.Paradigm, c.InChunks, append(append([]compose.Option{}, cpOpt...), r0.toolListOpts(c.Stages, nil)...)...)
+			r := callRun(r0, run0, store0, ps0, k, nil, append([]compose.Option{}, cpOpt...))
 			baseline = append(baseline, r)
 			if c.Eager {
 				// the tasks an eager run left behind must not meet the handlers of the next run
 				x0 := newExpectation(ps0)
-				x0.graph(0, c.Stages, nil, nil)
+				c.expectRun(x0, k, nil)
 				r0.settle(x0)
 				quiesce()
 				r0.mu.Lock() // after every node body of the tasks left behind
@@ -1429,7 +1596,7 @@ func runGraph(c *Case) lib.Result {
 			if r != "intr" {
 				break
 			}
-			if ps0.graphOutcome(c.Stages, nil) == outIntr {
+			if c.runOutcome(ps0, k, nil) == outIntr {
 				ps0.advance(c.Stages, nil)
 			}
 		}
@@ -1439,7 +1606,8 @@ func runGraph(c *Case) lib.Result {
 		if err != nil {
 			panic("harness: graph does not build: " + err.Error())
 		}
-		run1, err := g1.Compile(context.Background(), mkOpts()...)
+		store1 := &memStore{m: map[string][]byte{}}
+		run1, err := g1.Compile(context.Background(), mkOpts(store1, c.Stages)...)
 		if err != nil {
 			panic("harness: graph does not compile: " + err.Error())
 		}
@@ -1485,7 +1653,6 @@ func runGraph(c *Case) lib.Result {
 				}
 				opts = append(opts, op)
 			}
-			opts = append(opts, rr.toolListOpts(c.Stages, nil)...)
 			built[which] = opts
 			return append([]compose.Option{}, opts...)
 		}
@@ -1496,7 +1663,10 @@ func runGraph(c *Case) lib.Result {
 			if k > 0 && c.HasOpts2 {
 				which = 1
 			}
-			result := call(run1, c.Paradigm, c.InChunks, mkCallOpts(which, c.optsFor(k))...)
+			result := callRun(rr, run1, store1, ps, k, c.optsFor(k), mkCallOpts(which, c.optsFor(k)))
+			if c.faultStrikes(k) {
+				faultWhere = faultSite(lastCallErr)
+			}
 			if !waitPending(s, 10*time.Second) {
 				fail("graph-stream", "run %d: a handler's copy of a stream payload never ended", k)
 			}
@@ -1505,7 +1675,7 @@ func runGraph(c *Case) lib.Result {
 				// that step are still running; give them time to finish
 				x := newExpectation(ps)
 				x.opts = c.optsFor(k)
-				x.graph(0, c.Stages, c.optsFor(k), nil)
+				c.expectRun(x, k, c.optsFor(k))
 				want := expectedEvents(c, x)
 				wantBodies := 0
 				for uid, k := range x.kind {
@@ -1553,7 +1723,7 @@ func runGraph(c *Case) lib.Result {
 			if result != "intr" {
 				break
 			}
-			if ps.graphOutcome(c.Stages, c.optsFor(k)) == outIntr {
+			if c.runOutcome(ps, k, c.optsFor(k)) == outIntr {
 				ps.advance(c.Stages, c.optsFor(k))
 			}
 		}
@@ -1579,9 +1749,9 @@ func runGraph(c *Case) lib.Result {
 	for k := 0; ; k++ {
 		x := newExpectation(ps)
 		x.opts = c.optsFor(k)
-		out := x.graph(0, c.Stages, c.optsFor(k), nil)
+		out := c.expectRun(x, k, c.optsFor(k))
 		x0 := newExpectation(ps)
-		out0 := x0.graph(0, c.Stages, nil, nil)
+		out0 := c.expectRun(x0, k, nil)
 		if k >= len(runs) {
 			fail("graph-exec", "the sequence has %d runs, the case says there is a run %d (the run before it was interrupted)", len(runs), k)
 			break
@@ -1670,8 +1840,12 @@ func runGraph(c *Case) lib.Result {
 	if c.Store && !modelHasRuns {
 		res.CoqTerm = "" // stopgap while Corr/C10.v has no CaseRuns
 	} else if c.Store {
-		res.CoqTerm = fmt.Sprintf("CaseRuns %s %s\n  [%s]\n  [%s]\n  %s 0 0\n  %s\n  [%s]", nlist(c.Globals), coqNeeds(c.Handlers),
-			strings.Join(optT, "; "), strings.Join(optT2, "; "), lib.CoqBool(c.Paradigm != "invoke"), coqRStages(c.Stages), strings.Join(runTerms, ";\n   "))
+		fault := 0
+		if c.ResumeFault != "" && c.FaultAt > 0 {
+			fault = c.FaultAt
+		}
+		res.CoqTerm = fmt.Sprintf("CaseRunsF %s %s\n  [%s]\n  [%s]\n  %s %s 0 0\n  %s\n  [%s]", nlist(c.Globals), coqNeeds(c.Handlers),
+			strings.Join(optT, "; "), strings.Join(optT2, "; "), lib.CoqNat(fault), lib.CoqBool(c.Paradigm != "invoke"), coqRStages(c.Stages), strings.Join(runTerms, ";\n   "))
 	} else {
 		first := "([], [])"
 		if len(runTerms) > 0 {
@@ -1777,6 +1951,12 @@ func runGraph(c *Case) lib.Result {
 	}
 	if nStops > 0 {
 		res.Tags = append(res.Tags, fmt.Sprintf("interrupt-points:%d", nStops))
+	}
+	if c.ResumeFault != "" {
+		if faultWhere == "" {
+			faultWhere = "not-reached"
+		}
+		res.Tags = append(res.Tags, "resume-fault:"+c.ResumeFault, "resume-fault-site:"+faultWhere)
 	}
 	return res
 }
@@ -1974,6 +2154,22 @@ func checkRun(c *Case, x *expectation, run oneRun, first bool, specs map[int]HSp
 		}
 		if e.Comp != wantComp {
 			fail("graph-wrongnode", "handler %d unit %s: component %q, want %q", e.H, e.Name, e.Comp, wantComp)
+		}
+		// the implementation type in the run info is the unit's own where the component declares one: the
+		// lambda's (WithLambdaType), the tool's (components.Typer; "UnknownTool" for a call answered by the
+		// UnknownToolsHandler). (For graphs eino infers a name from the Go type, "no guarantee": not compared.)
+		wantType, declared := "", false
+		switch x.kind[uid] {
+		case "lambda":
+			wantType, declared = lambdaType(x.node[uid]), true
+		case "call":
+			wantType, declared = toolType(x.calls[uid]), true
+			if x.calls[uid].Unknown {
+				wantType = "UnknownTool"
+			}
+		}
+		if declared && e.Type != wantType {
+			fail("graph-wrongnode", "handler %d unit %s: run info type %q, the unit's component has type %q", e.H, e.Name, e.Type, wantType)
 		}
 		// payload: what the unit itself consumed / produced / ended with
 		e.L = lblUnknown
